@@ -85,7 +85,9 @@ func (c *Client) initProtocol() {
 	c.protocolMu.Lock()
 	c.Protocol = p
 	c.protocolMu.Unlock()
-	c.callbackContext.DoneChan = c.DoneChan()
+	// Callbacks run inside the receive loop, and DoneChan only closes once that
+	// loop has ended: a callback waiting for it would wait for itself
+	c.callbackContext.DoneChan = c.ShutdownChan()
 	// Reset state so Init() can be called again after restart
 	c.initSent = false
 	c.protoStarted = false
